@@ -3,8 +3,8 @@ import pk
 from common import jhash, first_diff
 from pkgrun import *
 
-PROF = profile(blocks=(0, 5), p_table=0.3, p_sdt_block=0.15, p_customxml=0.12, p_block_misc=0.08, max_depth=4, p_cell_block=0.5,
-               p_cell_nopar=0.12, p_sdt_cell=0.15, p_textbox=0.12, p_grid_gap=0.2, p_span=0.35, p_vmerge=0.35, bare_vals=True, stray_inline=True, p_block_misc=0.15)
+PROF = profile(blocks=(0, 5), p_table=0.3, p_sdt_block=0.15, p_customxml=0.12, p_block_misc=0.15, max_depth=4, p_cell_block=0.5,
+               p_cell_nopar=0.12, p_sdt_cell=0.15, p_textbox=0.12, p_grid_gap=0.2, p_span=0.35, p_vmerge=0.35, bare_vals=True, stray_inline=True)
 RULE = ('packages from the "wild nesting" profile (tables in cells up to depth 4, text boxes in runs in cells, block content controls, '
         'customXml wrappers, cells without paragraphs, grid gaps, merged cells) x 4 option settings x 6 attributes x 3 views; '
         'non-trivial = body has a table or wrapper nested below another; distinct by hash of the archive')
